@@ -401,9 +401,19 @@ impl World {
             Ok(Err(e)) => self.out.push(format!("att:{}=err:{}", name, err_class(&e))),
             Ok(Ok(pid)) => {
                 let idb: Vec<u8> = pid.into();
+                // a generated identity must be non-empty and differ from every other connection's
+                let dup = self.conns.iter().any(|(n, c)| n != name && c.ident.as_deref() == Some(idb.as_slice()));
                 let c = self.conn(name);
                 let announced = c.announced;
-                let s = if announced { hex(&idb) } else { "auto".to_string() };
+                let s = if announced {
+                    hex(&idb)
+                } else if idb.is_empty() {
+                    "EMPTY".to_string()
+                } else if dup {
+                    "auto-dup".to_string()
+                } else {
+                    "auto".to_string()
+                };
                 c.ident = Some(idb);
                 self.out.push(format!("att:{}=ok:{}", name, s));
             }
